@@ -28,7 +28,7 @@ RULE = ("every composition id x every operand shape of its admissible dimensions
         "for the dimension-generic compositions) x 1-2 seeded data fillings; non-trivial = result has >= 2 elements and dim >= 2; "
         "distinct = distinct case lines; plus every case of C11's kind-pair (19 x 6 kinds x 6 broadcasting views) and where streams")
 THEOREM_STATUS = {"proved": ["C10_eval_elements", "C10_eval_default_dynamic", "C10_row_major_buffer", "C10_skips_iff_shape_differs",
-                             "C10_composition_unobservable"], "partial": [], "refuted": []}
+                             "C10_composition_unobservable", "C10_eval_empty_result"], "partial": [], "refuted": []}
 ASSUMPTIONS = ["the lazy view's own elements are taken as observed from the implementation (their correctness is C03-C08/C16/C17)",
                "result object accepts the view's shape (run-time shaped result kind); refused resizes are examined under C11"]
 
